@@ -12,7 +12,7 @@ META = {
                  "before delegating; R13.3 compressed writers: close (finish stream) -> inner rotate -> open (re-init); R13.4 leaf "
                  "writers: close -> assign new target -> open, nothing writes the old handle after close; R13.5 no override of "
                  "rotate_output can return without having rotated (silent no-op) — it rotates or throws on every path; R13.6 the "
-                 "header of each output serialises the current file preamble. R13.3 also: the compressors are never re-initialised with a partial reset (deflateResetKeep and the like). R13.8 = the name obligations of R15.1/R15.2 (the file a rotation publishes is the file that was written: scratch name = final name + .part). R13.9: a data member that is always assigned the same function of other members (cdnsverif/derived.py) is recomputed by every member function that changes those members; the lazy form under a validity flag / stored key is refreshed before every read and invalidated after every change. R13.4 also accepts close(); the new file opened aside in a local stream; stream and name committed together.",
+                 "header of each output serialises the current file preamble. R13.3 also: the compressors are never re-initialised with a partial reset (deflateResetKeep and the like). R13.8 = the name obligations of R15.1/R15.2 (the file a rotation publishes is the file that was written: scratch name = final name + .part). R13.9: a data member that is always assigned the same function of other members (cdnsverif/derived.py) is recomputed by every member function that changes those members; the lazy form under a validity flag / stored key is refreshed before every read and invalidated after every change. R13.4 also accepts close(); the new file opened aside in a local stream; stream and name committed together. R13.10 = R03.11: a pointer member of the exporter into the preamble's parameter sets is re-seated by every member function that can make that vector grow.",
     "explanation": "must-precede / who-may-call rules over the rotate path (8 functions incl. template instantiations from the "
                    "verif-owned instantiation TU). 'Records in all outputs = records buffered' as an equality over histories is not "
                    "decided.",
@@ -30,6 +30,10 @@ def check(run):
     _derived.report(run, "R13.9", ["CDNS::Writer<std::basic_string<char>>", "CDNS::Writer<int>", "CDNS::CdnsEncoder", "CDNS::CborOutputWriter", "CDNS::GzipCborOutputWriter", "CDNS::XzCborOutputWriter", "CDNS::CdnsExporter"])
     from . import C15 as _C15
     _C15.check_names(_C06._Renamed(run, {"R15.1": "R13.8", "R15.2": "R13.8"}), "R15.1", "R15.2", only_names=True)
+    # a parameter set added while an output is open is used by later blocks: a pointer the exporter keeps to the active set
+    # must survive the growth of the vector it points into (R03.11 imported)
+    from . import C03 as _C03
+    _C03.check_member_pointers(run, "R13.10", floor=0)
     facts = run.facts
     # ---------------- R13.1 (exporter): framing obligations are shared with C02
     C02.check_framing(run)
